@@ -612,11 +612,56 @@ def mutated_mutable_defaults(ctx, module_prefixes: tuple[str, ...]):
     return out, n_defaults
 
 
+def mutated_class_level_mutables(ctx, module_prefixes: tuple[str, ...]):
+    """(class, attribute, function, node) for every class of the given modules
+    whose body binds an attribute to a mutable literal (``_cfg: dict = {}``)
+    that methods then modify in place through ``self`` without an instance
+    attribute of that name ever being assigned: the object is shared by all
+    instances."""
+    out = []
+    n_attrs = 0
+    MUT = ("append", "extend", "insert", "add", "update", "setdefault", "pop", "popitem", "remove", "discard", "clear", "appendleft", "sort", "reverse")
+    for c in ctx.repo.classes.values():
+        if not c.module.name.startswith(module_prefixes):
+            continue
+        for attr, val in c.class_attrs.items():
+            if attr.startswith("__") or not (
+                isinstance(val, (ast.List, ast.Dict, ast.Set))
+                or (isinstance(val, ast.Call) and isinstance(val.func, ast.Name) and val.func.id in ("list", "dict", "set", "defaultdict", "deque"))
+            ):
+                continue
+            if isinstance(val, ast.Dict) and attr == "__slots__":
+                continue
+            n_attrs += 1
+            methods = [m for q in [c.qualname] + [k.qualname for k in ctx.repo.classes.values() if c.qualname in k.mro] for m in ctx.repo.classes[q].methods.values()]
+            rebound = any(
+                isinstance(x, ast.Attribute) and x.attr == attr and isinstance(x.ctx, ast.Store) and isinstance(x.value, ast.Name) and m.params and x.value.id == m.params[0]
+                for m in methods for x in own_nodes(m.node)
+            )
+            if rebound:
+                continue
+            for m in methods:
+                if not m.params or m.is_static:
+                    continue
+                me = m.params[0]
+                for x in own_nodes(m.node):
+                    tgt = None
+                    if isinstance(x, ast.Call) and isinstance(x.func, ast.Attribute) and x.func.attr in MUT:
+                        tgt = x.func.value
+                    elif isinstance(x, ast.Subscript) and isinstance(x.ctx, (ast.Store, ast.Del)):
+                        tgt = x.value
+                    elif isinstance(x, ast.AugAssign):
+                        tgt = x.target
+                    if isinstance(tgt, ast.Attribute) and tgt.attr == attr and isinstance(tgt.value, ast.Name) and tgt.value.id in (me, c.name):
+                        out.append((c, attr, m, x))
+    return out, n_attrs
+
+
 def check_mutable_defaults(ctx, rule_id: str, prefixes: tuple[str, ...], what: str):
     """Declares and evaluates the 'no accumulation into a mutable default
     argument' rule for the modules of one property."""
     chk = ctx.chk
-    chk.rule(rule_id, f"no function of {what} modifies the object of a mutable default argument (a result must not depend on earlier calls)")
+    chk.rule(rule_id, f"no function of {what} modifies the object of a mutable default argument or a class-level mutable shared by all instances (a result must not depend on earlier calls / other objects)")
     hits, n_def = mutated_mutable_defaults(ctx, prefixes)
     seen = set()
     for fi, pname, w in hits:
@@ -630,5 +675,202 @@ def check_mutable_defaults(ctx, rule_id: str, prefixes: tuple[str, ...], what: s
             "so what one call puts into it is still there in the next call and the result depends on the call history",
             loc=w.loc,
         )
+    chits, n_cls = mutated_class_level_mutables(ctx, prefixes)
+    for c, attr, m, x in chits:
+        chk.violation(
+            rule_id, m, x,
+            f"`{ast.unparse(x)[:70]}` modifies `{c.name}.{attr}`, a mutable object created once in the class body and never "
+            "replaced per instance: every instance shares it, so what one object stores is seen (or overwritten) by the others",
+            loc=m.loc(x),
+        )
+    if not hits and not chits:
+        chk.ok(rule_id, ", ".join(prefixes), "", f"{n_def} mutable default arguments and {n_cls} class-level mutable attributes, none is modified")
+
+
+# --------------------------------------------------------------------------
+def _reads_before_write(node, name):
+    """First thing that happens to ``name`` when ``node`` (statement list,
+    statement or expression) is evaluated: the Name node of a *read*, the string
+    "written", or None if it is not touched.  Scopes that rebind the name
+    (lambda parameters, comprehension targets, nested functions) hide it."""
+    if isinstance(node, list):
+        for st in node:
+            r = _reads_before_write(st, name)
+            if r is not None:
+                return r
+        return None
+    if isinstance(node, (ast.FunctionDef, ast.AsyncFunctionDef, ast.ClassDef)):
+        return "written" if getattr(node, "name", None) == name else None
+    if isinstance(node, ast.Lambda):
+        a = node.args
+        if name in {x.arg for x in a.posonlyargs + a.args + a.kwonlyargs} | ({a.vararg.arg} if a.vararg else set()) | ({a.kwarg.arg} if a.kwarg else set()):
+            return None
+        return _reads_before_write(node.body, name)
+    if isinstance(node, (ast.ListComp, ast.SetComp, ast.GeneratorExp, ast.DictComp)):
+        for i, g in enumerate(node.generators):
+            r = _reads_before_write(g.iter, name)
+            if r is not None:
+                return r
+            if any(isinstance(x, ast.Name) and x.id == name for x in ast.walk(g.target)):
+                return None  # shadowed from here on
+            for c in g.ifs:
+                r = _reads_before_write(c, name)
+                if r is not None:
+                    return r
+        parts = [node.key, node.value] if isinstance(node, ast.DictComp) else [node.elt]
+        for p_ in parts:
+            r = _reads_before_write(p_, name)
+            if r is not None:
+                return r
+        return None
+    if isinstance(node, ast.Name):
+        if node.id != name:
+            return None
+        return node if isinstance(node.ctx, ast.Load) else "written"
+    if isinstance(node, (ast.Assign, ast.AnnAssign, ast.AugAssign)):
+        v = node.value
+        if v is not None:
+            r = _reads_before_write(v, name)
+            if r is not None:
+                return r
+        tgts = node.targets if isinstance(node, ast.Assign) else [node.target]
+        for t in tgts:
+            if isinstance(node, ast.AugAssign) and isinstance(t, ast.Name) and t.id == name:
+                return t  # x += ... reads x
+            r = _reads_before_write(t, name)
+            if r is not None:
+                return r
+        return None
+    if isinstance(node, (ast.For, ast.AsyncFor)):
+        r = _reads_before_write(node.iter, name)
+        if r is not None:
+            return r
+        if any(isinstance(x, ast.Name) and x.id == name for x in ast.walk(node.target)):
+            # rebound on entry; an empty iterable leaves the old value, but a
+            # later read then concerns this loop, not the earlier one
+            return "written"
+        return _reads_before_write(node.body, name) or _reads_before_write(node.orelse, name)
+    if isinstance(node, ast.If):
+        r = _reads_before_write(node.test, name)
+        if r is not None:
+            return r
+        a, b = _reads_before_write(node.body, name), _reads_before_write(node.orelse, name)
+        for x in (a, b):
+            if isinstance(x, ast.Name):
+                return x
+        return "written" if a == "written" and b == "written" else None
+    if isinstance(node, ast.AST):
+        for fld, val in ast.iter_fields(node):
+            if isinstance(val, ast.AST):
+                r = _reads_before_write(val, name)
+                if r is not None:
+                    return r
+            elif isinstance(val, list):
+                for x in val:
+                    if isinstance(x, ast.AST):
+                        r = _reads_before_write(x, name)
+                        if r is not None:
+                            return r
+    return None
+
+
+def loop_variable_leaks(ctx, module_prefixes: tuple[str, ...]):
+    """(function, loop, variable, use) where a statement *after* a ``for`` loop
+    reads the loop's variable although the loop has no ``break``: what is read
+    is whatever the last iteration left behind (typically a statement that was
+    meant to be inside the loop, one indentation level deeper), and nothing at
+    all if the iterable was empty."""
+    out = []
+    n_loops = 0
+    for fi in ctx.repo.all_functions():
+        if isinstance(fi.node, ast.Lambda) or not fi.module.name.startswith(module_prefixes):
+            continue
+        for p in [fi.node] + [n for n in own_nodes(fi.node)]:
+            for fld in ("body", "orelse", "finalbody"):
+                blk = getattr(p, fld, None)
+                if not (isinstance(blk, list) and blk and isinstance(blk[0], ast.stmt)):
+                    continue
+                for i, st in enumerate(blk):
+                    if not isinstance(st, ast.For) or st.orelse:
+                        continue
+                    n_loops += 1
+                    if any(isinstance(x, (ast.Break, ast.Return)) for x in ast.walk(st)):
+                        continue  # a search loop: the variable is its result
+                    for name in sorted({x.id for x in ast.walk(st.target) if isinstance(x, ast.Name)} - {"_"}):
+                        r = _reads_before_write(blk[i + 1:], name)
+                        if isinstance(r, ast.Name):
+                            out.append((fi, st, name, r))
+    return out, n_loops
+
+
+def check_loop_variable_leaks(ctx, rule_id: str, prefixes: tuple[str, ...], what: str):
+    chk = ctx.chk
+    chk.rule(rule_id, f"no function of {what} reads a for-loop variable after its loop (a statement left one indentation level too shallow only sees the last element)")
+    hits, n_loops = loop_variable_leaks(ctx, prefixes)
+    for fi, lp, name, use in hits:
+        chk.violation(
+            rule_id, fi, use,
+            f"`{name}` is read after the loop `for {ast.unparse(lp.target)} in {ast.unparse(lp.iter)[:50]}` has ended: only the value of the "
+            "last iteration is seen (the statement belongs inside the loop), and with an empty iterable the name is not bound at all",
+            loc=fi.loc(use),
+        )
     if not hits:
-        chk.ok(rule_id, ", ".join(prefixes), "", f"{n_def} mutable default arguments, none is modified")
+        chk.ok(rule_id, ", ".join(prefixes), "", f"{n_loops} for-loops, no loop variable is read after its loop")
+
+
+# --------------------------------------------------------------------------
+def str_enum_identity_tests(ctx, module_prefixes: tuple[str, ...]):
+    """(function, compare node, enum class) for `x is E.MEMBER` / `is not`
+    where E is a ``str``-mixin Enum of the package.  The library accepts the
+    plain string for such enums everywhere (they compare equal to it and hash
+    alike), so a value arriving as "jobs" is `==` FeatureType.JOBS but not
+    `is` it.  Exempt: the function converted the value itself (`E(x)`)."""
+    repo = ctx.repo
+    enums = {}
+    for c in repo.classes.values():
+        bs = [b.split(".")[-1] for b in c.base_exprs]
+        if "str" in bs and any(b in ("Enum",) for b in bs):
+            enums[c.name] = c
+    out = []
+    n = 0
+    for fi in repo.all_functions():
+        if isinstance(fi.node, ast.Lambda) or not fi.module.name.startswith(module_prefixes):
+            continue
+        for x in own_nodes(fi.node):
+            if isinstance(x, ast.MatchValue):
+                continue
+            if not (isinstance(x, ast.Compare) and len(x.ops) == 1):
+                continue
+            sides = [x.left, x.comparators[0]]
+            member = next((sd for sd in sides if isinstance(sd, ast.Attribute) and isinstance(sd.value, ast.Name) and sd.value.id in enums), None)
+            if member is None:
+                continue
+            n += 1
+            if not isinstance(x.ops[0], (ast.Is, ast.IsNot)):
+                continue
+            other = sides[1] if sides[0] is member else sides[0]
+            en = member.value.id
+            converted = any(
+                isinstance(c, ast.Call) and isinstance(c.func, ast.Name) and c.func.id == en and c.args
+                and isinstance(other, ast.Name) and any(isinstance(t, ast.Name) and t.id == other.id for t in ast.walk(c.args[0]))
+                for c in own_nodes(fi.node)
+            )
+            if not converted:
+                out.append((fi, x, enums[en]))
+    return out, n
+
+
+def check_str_enum_identity(ctx, rule_id: str, prefixes: tuple[str, ...], what: str):
+    chk = ctx.chk
+    chk.rule(rule_id, f"no function of {what} tests a str-Enum value by identity (plain strings are accepted for these enums and are equal, not identical, to the member)")
+    hits, n = str_enum_identity_tests(ctx, prefixes)
+    for fi, node, en in hits:
+        chk.violation(
+            rule_id, fi, node,
+            f"`{ast.unparse(node)}` tests a {en.name} value by identity: {en.name} is a str-Enum and the library accepts the plain "
+            "string for it (it is equal to the member and selects the same dictionary entries), so for a value given as a "
+            "string this branch is never taken",
+            loc=fi.loc(node),
+        )
+    if not hits:
+        chk.ok(rule_id, ", ".join(prefixes), "", f"{n} comparisons with str-Enum members, none by identity")
